@@ -19,10 +19,10 @@ HEAD=$(git -C /repo rev-parse HEAD)
 if [ ! -d "$BASE/repo" ]; then
 	git -C /repo worktree add --detach "$BASE/repo" "$HEAD" >/dev/null 2>&1 || { echo "cannot create worktree"; exit 3; }
 fi
-git -C "$BASE/repo" checkout -q -- . && git -C "$BASE/repo" clean -fdq -e target && git -C "$BASE/repo" checkout -q --detach "$HEAD" || { echo "cannot reset worktree"; exit 3; }
+git -C "$BASE/repo" reset -q --hard && git -C "$BASE/repo" clean -fdq -e target && git -C "$BASE/repo" checkout -q --detach "$HEAD" || { echo "cannot reset worktree"; exit 3; }
 if [ "$PATCH" != "none" ]; then
 	PATCH=$(readlink -f "$PATCH")
-	( cd "$BASE/repo" && { git apply "$PATCH" 2>/tmp/iso/$SLOT/apply.err || git apply --3way "$PATCH" 2>>/tmp/iso/$SLOT/apply.err; } ) || { echo "PATCH DOES NOT APPLY"; cat /tmp/iso/$SLOT/apply.err; exit 4; }
+	( cd "$BASE/repo" && { git apply "$PATCH" 2>/tmp/iso/$SLOT/apply.err || git apply --3way "$PATCH" 2>>/tmp/iso/$SLOT/apply.err; } ) || { echo "PATCH DOES NOT APPLY"; cat /tmp/iso/$SLOT/apply.err; git -C "$BASE/repo" reset -q --hard; exit 4; }
 	git -C "$BASE/repo" reset -q
 fi
 # the committed state of /verif by default (edits in progress there do not disturb a run); ISO_WORKTREE=1 copies the
